@@ -26,10 +26,16 @@ def exchange(w, name, ps, sym, pw, ids, x, y, cyclesA=0, cyclesB=0, tags=(), mod
     oa = sc.start(a, msg_mode if msg_mode != NONE else CLASS)
     ob = sc.start(b, msg_mode if msg_mode != NONE else CLASS)
     mA, mB = payload(oa), payload(ob)
+    failed_cycles = 0
     for _ in range(cyclesA):
-        a = sc.cycle(a, sideA, ps, mode)
+        a2 = sc.cycle(a, sideA, ps, mode)
+        failed_cycles += (a2 == a)
+        a = a2
     for _ in range(cyclesB):
-        b = sc.cycle(b, sideB, psB, mode)
+        b2 = sc.cycle(b, sideB, psB, mode)
+        failed_cycles += (b2 == b)
+        b = b2
+    sc.meta["failed_cycles"] = failed_cycles
     if mA is None or mB is None:
         sc.meta.update(dict(started=False))
         return sc
@@ -45,6 +51,8 @@ def pred_agreement(io, sc):
     m = sc.meta
     if not m.get("started"):
         return "start() failed: %s" % io[:4]
+    if m.get("failed_cycles"):
+        return "an end could not be persisted with serialize() and revived with from_serialized() (%d failed cycle(s))" % m["failed_cycles"]
     ka, kb = m["ka"], m["kb"]
     KA, KB = key_of(ka), key_of(kb)
     if KA is not None and KB is not None:
@@ -105,6 +113,43 @@ def gen_C01(w, tier):
                 sc.pred = pred_agreement
                 out.append(sc)
                 n += 1
+    # several exchanges in flight at once, all persisted and revived before any of them finishes
+    for name in ("ed", "1024"):
+        ps = w.ps[name]
+        for rep in range(3 if not big else 20):
+            sc = w.scenario("C01/%s/in-flight/%d" % (name, rep), ("set:" + name, "several-in-flight"))
+            k = r.choice([2, 3])
+            ends = []
+            for j in range(k):
+                sym = r.random() < 0.3
+                sa, sb = ("S", "S") if sym else ("A", "B")
+                pw, ids = w.password(), w.ids_for("A")
+                a = sc.new(sa, ps, pw, ids[0], ids[1], w.entropy_for(ps, w.scalar(ps)), CLASS)
+                b = sc.new(sb, ps, pw, ids[0], ids[1], w.entropy_for(ps, w.scalar(ps)), CLASS)
+                ends.append([a, b, sa, sb, payload(sc.start(a, CLASS)), payload(sc.start(b, CLASS))])
+            bad = 0
+            for e in ends:
+                for idx in (0, 1):
+                    n2 = sc.cycle(e[idx], e[2 + idx], ps, CLASS)
+                    bad += (n2 == e[idx])
+                    e[idx] = n2
+            keys = []
+            for e in ends:
+                keys.append((sc.finish(e[0], e[5], CLASS), sc.finish(e[1], e[4], CLASS), e[4], e[5]))
+            sc.meta.update(keys=keys, bad=bad)
+
+            def pred_if(io, sc):
+                if sc.meta["bad"]:
+                    return "an end could not be persisted and revived"
+                for (ka, kb, ma, mb) in sc.meta["keys"]:
+                    if ma[1:] == mb[1:]:
+                        continue
+                    if not (ka.startswith("ok") and ka == kb):
+                        return "exchanges revived together did not agree: %s / %s" % (ka[:50], kb[:50])
+                return None
+            sc.pred = pred_if
+            out.append(sc)
+            n += 1
     # toy groups: exhaustive scalar pairs for several password classes (w = 0 included when found)
     for name, ps in w.ps.items():
         if not ps.toy or ps.base:
